@@ -469,13 +469,18 @@ def main():
     for name, edits in PART_CANARIES:
         hit = False
         for p in (2, 3, 4):
-            rr = partition_item(((p,), (0,), edits))
+            try:
+                rr = partition_item(((p,), (0,), edits))
+            except H.CanaryNotApplicable:
+                caught['__not_applicable__'] = True
+                break
             if rr['violations']:
                 hit = True
+                caught[name] = True
                 break
         run.canaries.append(dict(name=name, detected=hit))
         if not hit:
-            run.inconc('canary not detected: %s' % name)
+            run.canary_miss(name, caught)
     run.sections['partition'] = dict(process_counts='1..%d (1-D), 2-D grids listed in source' % P, extents='unbounded Int, n >= p')
 
     # (b) buffer sufficiency
@@ -513,11 +518,17 @@ def main():
             continue
         run.merge(r)
     for name, edits in ACC_CANARIES:
-        rr = accessor_item((3, [2], [2, 0, 1], 4, edits))
+        try:
+            rr = accessor_item((3, [2], [2, 0, 1], 4, edits))
+        except H.CanaryNotApplicable:
+            caught['__not_applicable__'] = True
+            rr = dict(violations=[], inconclusive=[])
         hit = bool(rr['violations'])
+        if hit:
+            caught[name] = True
         run.canaries.append(dict(name=name, detected=hit))
         if not hit:
-            run.inconc('canary not detected: %s (%s)' % (name, rr['inconclusive'][:1]))
+            run.canary_miss(name, caught)
     run.sections['accessors'] = dict(configs=len(aitems), N=NA)
     run.stubs = LS.stubs() + ['pygyro.model.grid np -> lib/symnp.NPShim, len -> symlen', 'coordinate arrays: SymSeq of symbolic length with uninterpreted values']
     run.bounds = dict(partition='all n >= p (unbounded), p <= %d per direction' % P, buffer='extents <= %d' % N,
